@@ -19,6 +19,10 @@ class Feat:
 class Sub:
     def __init__(self, name, feats=(), data=True):
         self.name, self.feats, self.data = name, list(feats), data
+        # (module, rev|None): the submodule imports this module under a prefix of ITS OWN (the main module imports the same module
+        # under another prefix) and derives identities from its base identity — the revert of a failed load has to resolve the
+        # base through the submodule's imports to unlink them (seed C17r3)
+        self.idimp = None
 
 
 class Mod:
@@ -135,6 +139,11 @@ class Mod:
 
     def sub_text(self, s):
         o = ["submodule %s {" % s.name, "  yang-version 1.1;", "  belongs-to %s { prefix %s; }" % (self.name, self.name)]
+        if s.idimp:
+            (n, r) = s.idimp
+            o.append("  import %s { prefix sp%s;%s }" % (n, n, (" revision-date %s;" % r) if r else ""))
+            for x in ("ids", "idt"):
+                o.append("  identity %s_%s { base sp%s:idb_%s; }" % (x, s.name, n, n))
         for f in s.feats:
             o.append("  feature %s%s" % (f.name, (" { if-feature %s; }" % f.iff) if f.iff else ";"))
         if s.data:
@@ -451,6 +460,8 @@ def gen_set(rng, n=None):
                 if m.data and t.typedef and rng.random() < 0.4: m.uses_td.append(t.name)
                 if m.data and t.grouping and rng.random() < 0.4: m.uses_grp.append(t.name)
                 if t.identity and not m.idbase and rng.random() < 0.4: m.idbase = t.name
+        if m.subs and m.idbase and rng.random() < 0.7:
+            m.subs[0].idimp = [im for im in m.imports if im[0] == m.idbase][0]
         if m.data:
             m.when = rng.random() < 0.3
             m.must = rng.random() < 0.3
